@@ -542,6 +542,40 @@ impl<'o> Case<'o> {
         true
     }
 
+    /// An event one of whose field values panics in its `Debug` impl; the caller catches the panic
+    /// and the thread goes on.  Whatever was or was not written for the aborted record is not
+    /// judged - the NEXT record of this thread is (it must not start with the aborted one's text).
+    fn op_bomb_event(&mut self) {
+        struct Bomb;
+        struct BombPayload;
+        impl std::fmt::Debug for Bomb {
+            fn fmt(&self, _: &mut std::fmt::Formatter<'_>) -> std::fmt::Result {
+                std::panic::panic_any(BombPayload)
+            }
+        }
+        static QUIET: std::sync::Once = std::sync::Once::new();
+        QUIET.call_once(|| {
+            let prev = std::panic::take_hook();
+            std::panic::set_hook(Box::new(move |info| {
+                if info.payload().downcast_ref::<BombPayload>().is_none() {
+                    prev(info);
+                }
+            }));
+        });
+        let op = "event!(before = 1, v = ?<a value whose Debug impl panics>) inside catch_unwind".to_string();
+        self.ops.push(op);
+        let r = std::panic::catch_unwind(std::panic::AssertUnwindSafe(|| {
+            tracing::info!(target: "c14::bomb", before = 1u64, v = ?Bomb, "about to fail");
+        }));
+        match r {
+            Err(p) if p.downcast_ref::<BombPayload>().is_some() => {}
+            Err(p) => std::panic::resume_unwind(p),
+            Ok(()) => {}
+        }
+        self.out.count("events_aborted_by_a_panicking_Debug_value(caught)", 1);
+        let _ = self.writer.drain();
+    }
+
     fn op_record_unknown(&mut self, rng: &mut Rng) -> bool {
         if self.spans.is_empty() {
             return false;
@@ -690,8 +724,10 @@ fn run_case(args: &Args, case_idx: u64, corpus: &Corpus, out: &mut Out, float_in
                 if case.spans.is_empty() { 0 } else { 9 },      // record
                 8,                                              // event
                 if case.spans.is_empty() { 0 } else { 1 },      // record on an undeclared name
+                1,                                              // event aborted by a panicking Debug value
             ];
             match rng.weighted(&w) {
+                6 => case.op_bomb_event(),
                 0 => case.op_new_span(&mut rng, corpus),
                 1 => {
                     case.op_enter(&mut rng);
